@@ -574,14 +574,6 @@ theorem hardenLinks_nonempty (p : Policy) (el : Bytes) (u : List Attr) (h : u.is
       rw [this] at he'; cases he'
     | cons _ _ => rfl
 
-theorem mapMOpt_all_fix {α} (f : α → Option (Option α)) (l : List α) (h : ∀ b ∈ l, f b = some (some b)) :
-    mapMOpt f l = some l := by
-  induction l with
-  | nil => rfl
-  | cons x xs ih =>
-    unfold mapMOpt
-    rw [h x (by simp), ih (fun b hb => h b (by simp [hb]))]
-
 /-! ### C20 when the rules let rel and target through -/
 
 /-- **the attribute pass reproduces its result on element `el`** when the rules do not look at the value of the
@@ -593,7 +585,8 @@ theorem link_idemOpen (p : Policy) (el : Bytes) (hs : LinkCoreAt p el) (attrs ou
     (hblind : ∀ k, urlKeyFor el = some k → ∀ v v',
       (p.filterAttr el aps false ⟨k, v⟩).isSome = (p.filterAttr el aps false ⟨k, v'⟩).isSome)
     (hclosed : isHrefElement el = true → ∀ u : List Attr, (∀ a ∈ u, (p.filterAttr el aps false a).isSome = true) →
-      ∀ b ∈ p.hardenLinks el u, (p.filterAttr el aps false b).isSome = true) :
+      ∀ b ∈ p.hardenLinks el u, (p.filterAttr el aps false b).isSome = true)
+    (hstab : UrlStableOn p el out) :
     p.sanitizeAttrs el out aps = some out := by
   rw [link_sanitizeAttrsAt p el hs] at h ⊢
   simp only at h ⊢
@@ -625,7 +618,7 @@ theorem link_idemOpen (p : Policy) (el : Bytes) (hs : LinkCoreAt p el) (attrs ou
         by_cases hrp : p.requireParseableURLs = true
         · simp only [hrp, ↓reduceIte] at hu
           obtain ⟨a, ha, hfa⟩ := mapMOpt_mem _ c u hu b hb
-          obtain ⟨_, hk, hor⟩ := urlFixAt hs a b hfa
+          obtain ⟨hk, hor⟩ := urlFixAt hs a b hfa
           rcases hor with rfl | ⟨hkey, _⟩
           · exact hcacc _ ha
           · have := hblind' a.key hkey a.val b.val
@@ -635,11 +628,29 @@ theorem link_idemOpen (p : Policy) (el : Bytes) (hs : LinkCoreAt p el) (attrs ou
         · simp only [hrp, Bool.false_eq_true, ↓reduceIte, Option.some.injEq] at hu
           subst hu; exact hcacc b hb
       -- each attribute the URL pass returned is left alone by it
-      have hueach : p.requireParseableURLs = true → ∀ b ∈ u, p.urlPassAttr el b = some (some b) := by
-        intro hrp b hb
-        simp only [hrp, ↓reduceIte] at hu
-        obtain ⟨a, _, hfa⟩ := mapMOpt_mem _ c u hu b hb
-        exact (urlFixAt hs a b hfa).1
+      -- an attribute of `u` at the element's URL key is in the result (the hardening block does not touch href
+      -- attributes, and runs on link elements only), whose URLs are stable: the URL pass leaves it alone
+      have hueach : ∀ b ∈ u, p.urlPassAttr el b = some (some b) := by
+        intro b hb
+        apply urlPass_fixed p hs.noRewriter el b
+        intro hkey
+        apply hstab b ?_ hkey
+        rw [hout]
+        split
+        · rename_i hc
+          have hhref : isHrefElement el = true := by simp only [Bool.and_eq_true] at hc; exact hc.2
+          have hk : b.key = b!"href" := by
+            have : urlKeyFor el = some b!"href" := by simp [urlKeyFor, hhref]
+            rw [this] at hkey; exact (Option.some.inj hkey).symm
+          have hbf : b ∈ u.filter isHref := List.mem_filter.mpr ⟨hb, by simp [isHref, hk]⟩
+          have hfil : (p.hardenLinks el u).filter isHref = u.filter isHref := by
+            rw [hardenLinks_ext]
+            split
+            · rfl
+            · exact filter_href_hardenCore _ _ _ _ u
+          rw [← hfil] at hbf
+          exact (List.mem_filter.mp hbf).1
+        · exact hb
       have hfu : u.filter acc = u := List.filter_eq_self.mpr huacc
       by_cases hcond : ((p.requireNoFollow || p.requireNoFollowFullyQualifiedLinks || p.requireNoReferrer ||
           p.requireNoReferrerFullyQualifiedLinks || p.addTargetBlankToFullyQualifiedLinks) &&
@@ -672,7 +683,7 @@ theorem link_idemOpen (p : Policy) (el : Bytes) (hs : LinkCoreAt p el) (attrs ou
             intro b hb
             rw [hout] at hb
             rcases mem_hardenLinks p el u b hb with hb | hb
-            · exact hueach hrp b hb
+            · exact hueach b hb
             · -- a rel or target attribute is not the URL attribute of a link element
               have hkne : (b.key == b!"href") = false := by
                 unfold isRelOrTarget at hb
@@ -695,7 +706,7 @@ theorem link_idemOpen (p : Policy) (el : Bytes) (hs : LinkCoreAt p el) (attrs ou
         have hufix : (if p.requireParseableURLs = true then mapMOpt (p.urlPassAttr el) out else some out) = some out := by
           by_cases hrp : p.requireParseableURLs = true
           · simp only [hrp, ↓reduceIte]
-            exact mapMOpt_all_fix _ _ (hueach hrp)
+            exact mapMOpt_all_fix _ _ hueach
           · simp only [hrp, Bool.false_eq_true, ↓reduceIte]
         rw [hfu]
         by_cases hue : out.isEmpty = true
@@ -714,7 +725,7 @@ theorem link_idemOpen (p : Policy) (el : Bytes) (hs : LinkCoreAt p el) (attrs ou
 
 /-- policies with link options whose rules let `rel` and `target` through, whatever their value, on the link
     elements (and, like `LinkSimple`, attach no value pattern to the URL attributes; no styles, forced crossorigin
-    or sandbox, no rewriter; URL normalisation stable) -/
+    or sandbox, no rewriter) -/
 structure LinkOpen (p : Policy) : Prop where
   core : ∀ el, LinkCoreAt p el
   blind : ∀ el aps, p.attrRulesFor el = some aps → ∀ k, urlKeyFor el = some k → ∀ v v',
@@ -722,8 +733,11 @@ structure LinkOpen (p : Policy) : Prop where
   letThrough : ∀ el aps, p.attrRulesFor el = some aps → isHrefElement el = true → ∀ v,
     (p.filterAttr el aps false ⟨b!"rel", v⟩).isSome = true ∧ (p.filterAttr el aps false ⟨b!"target", v⟩).isSome = true
 
-theorem attrFix_of_open (p : Policy) (hs : LinkOpen p) : AttrFix p := by
-  intro t aps attrs _ haps h
+/-- URL normalisation is stable on a tag of the output -/
+def UrlStableTag (p : Policy) (k : Token) : Prop := UrlStableOn p k.data k.attrs
+
+theorem attrFixG_of_open (p : Policy) (hs : LinkOpen p) (t : Token) : AttrFixG p (UrlStableTag p) t := by
+  intro aps attrs _ haps h hG
   unfold Policy.cleanAttrs at h ⊢
   split at h
   · simp at h; subst h; simp_all
@@ -732,7 +746,7 @@ theorem attrFix_of_open (p : Policy) (hs : LinkOpen p) : AttrFix p := by
     · rename_i he
       have : attrs = [] := List.isEmpty_iff.mp he
       subst this; rfl
-    · refine link_idemOpen p t.data (hs.core t.data) t.attrs attrs aps h (hs.blind t.data aps haps) ?_
+    · refine link_idemOpen p t.data (hs.core t.data) t.attrs attrs aps h (hs.blind t.data aps haps) ?_ hG
       intro hhref u hu b hb
       rcases mem_hardenLinks p t.data u b hb with hb | hb
       · exact hu b hb
@@ -745,17 +759,14 @@ theorem attrFix_of_open (p : Policy) (hs : LinkOpen p) : AttrFix p := by
           rw [this]; exact (hs.letThrough t.data aps haps hhref b.val).2
 
 /-- **C20, policies with link options whose rules let rel and target through**: sanitising twice is sanitising
-    once, for every input — "added rel tokens are not repeated" — provided URL normalisation is stable.
+    once — "added rel tokens are not repeated" — whenever URL normalisation is stable on the output: every URL
+    value at a checked position of `Sanitize(x)` is returned unchanged by the URL check.
     Together with `C20_links` (rules that let neither through) this leaves exactly the mixed case, where the
     order of the two attributes changes on the second pass: the known finding `forced-attr-order`. -/
-theorem C20_links_open (p : Policy) (hp : Plain p.ensureInit) (hs : LinkOpen p.ensureInit) (input : Bytes) :
+theorem C20_links_open (p : Policy) (hp : Plain p.ensureInit) (hs : LinkOpen p.ensureInit) (input : Bytes)
+    (hstab : ∀ k ∈ tokenize (p.sanitizeCore input), isOpen k → UrlStableTag p.ensureInit k) :
     p.sanitizeCore (p.sanitizeCore input) = p.sanitizeCore input :=
-  C20_fix p hp (attrFix_of_open _ hs) input
-
-theorem C20_links_open_on (p : Policy) (input : Bytes) (hp : PlainOn p.ensureInit (tokenize input))
-    (hnc : p.ensureInit.allowComments = false) (hs : LinkOpen p.ensureInit) :
-    p.sanitizeCore (p.sanitizeCore input) = p.sanitizeCore input :=
-  C20_fix_on p input hp hnc (attrFix_of_open _ hs)
+  C20_fix_out p hp (UrlStableTag p.ensureInit) input (fun t _ => attrFixG_of_open _ hs t) hstab
 
 /-- such a policy at work (a test, not the unbounded claim): rel and target are allowed on `a`, the options add
     to them in place, and the second pass changes nothing -/
